@@ -418,6 +418,11 @@ func TestC19(t *testing.T) {
 		case 4:
 			cfg = &ygot.RFC7951JSONConfig{AppendModuleName: true, RewriteModuleNames: map[string]string{}}
 		}
+		// shadow-path tags exist only in the variant generated with -ignore_shadow_schema_paths (vocc):
+		// both settings are rendered in one process
+		if v.Name == "vocc" && cfg != nil && rapid.Bool().Draw(rt, "preferShadowPath") {
+			cfg.PreferShadowPath = true
+		}
 		entry := rapid.SampledFrom([]string{"Marshal7951", "EmitJSON", "ConstructIETFJSON", "Marshal7951-sub"}).Draw(rt, "entry")
 		target := m
 		if entry == "Marshal7951-sub" {
@@ -527,7 +532,12 @@ func TestC19(t *testing.T) {
 		if len(w.problems) > 0 {
 			rt.Fatalf("RFC 7951 encoding violated:\n  %s\n%s", strings.Join(w.problems, "\n  "), desc())
 		}
-		// value equality through the strict decoder (exponent forms excused above were normalised)
+		// value equality through the strict decoder (exponent forms excused above were normalised); with
+		// PreferShadowPath the document is laid out along the shadow paths, which the decoder for this
+		// variant does not know: the encoding walk above is the whole check then
+		if cfg != nil && cfg.PreferShadowPath {
+			return
+		}
 		back, perr := model.ParseJSON(target.SI, encodeJSON(obj))
 		if perr != nil {
 			rt.Fatalf("strict RFC 7951 decoder rejects ygot's output: %v\n%s", perr, desc())
